@@ -109,3 +109,15 @@ Proof.
   - apply cauchy_forward_of_inverse; assumption.
 Qed.
 Print Assumptions C02_tanh_sigmoid_cauchy_inverses.
+
+(* the context reaches every part: each call of a sub-transform, of its inverse, of a conditioner network or of the internal
+   cascade inside the composite / multiscale / inverse wrappers, the coupling base class and the autoregressive base class hands
+   on `context` (tables regenerated from the three source files on every run).  A part that is applied with the context in one
+   direction and without it in the other is not inverted by its own inverse. *)
+From NF Require Gen.Context.
+Theorem C02_the_context_reaches_every_part :
+  List.forallb (fun r => snd r) Gen.Context.wrappers_context_forwarding = true /\
+  List.forallb (fun r => snd r) Gen.Context.coupling_context_forwarding = true /\
+  List.forallb (fun r => snd r) Gen.Context.autoregressive_context_forwarding = true.
+Proof. repeat split; reflexivity. Qed.
+Print Assumptions C02_the_context_reaches_every_part.
